@@ -40,7 +40,8 @@ class Diagonalization(Function):
         if ctx.batch_shape is None:
             q_mat = q_mat.unsqueeze(-3)
             t_mat = t_mat.unsqueeze(-3)
-        if t_mat.ndimension() == 3:  # If we only used one probe vector
+        added_probe_dim = t_mat.ndimension() == 3
+        if added_probe_dim:  # If we only used one probe vector
             q_mat = q_mat.unsqueeze(0)
             t_mat = t_mat.unsqueeze(0)
 
@@ -57,8 +58,9 @@ class Diagonalization(Function):
 
         if ctx.batch_shape is None:
             q_mat = q_mat.squeeze(1)
-        q_mat = q_mat.squeeze(0)
-        eigenvalues = eigenvalues.squeeze(0)
+        if added_probe_dim:  # (an unconditional squeeze also removes a genuine size-1 dimension: one Lanczos vector, or n = 1)
+            q_mat = q_mat.squeeze(0)
+            eigenvalues = eigenvalues.squeeze(0)
 
         to_save = list(matrix_args) + [q_mat, eigenvalues]
         ctx.save_for_backward(*to_save)
